@@ -213,7 +213,9 @@ def viol_classes(violations):
 LAYER2 = {
     "C02": ["AddMul_small", "InvRing_small", "InvRing_w8"],
     "C03": ["Knuth_small", "Div_small", "MG10_2x1_small", "MG10_3x2_small", "MG10_recip2_small"],
+    "C04": ["LimbShift_small", "InvRing_small"],
     "C05": ["LimbShift_small"],
+    "C06": ["LimbShift_small"],
     "C09": ["BaseConv_spigot_small", "BaseConv_le_small", "BaseConv_be_small", "Fmt_small"],
     "C10": ["Pow_powmod_small", "Pow_addmod_small", "Lehmer_inv_small"],
     "C11": ["Redc_small", "Redc_square_small", "Redc_square_3limb"],
